@@ -14,6 +14,7 @@ fn adapter(name: &str, variant: &str) -> Option<Box<dyn Adapter>> {
         "ratelimiter" => Box::new(adapters::ratelimiter::RateLimiterAd::new()),
         "adaptive" => Box::new(adapters::adaptive::AdaptiveAd::new()),
         "retry" => Box::new(adapters::retry::RetryAd::new()),
+        "reconnect" => Box::new(adapters::reconnect::ReconnectAd::new()),
         "circuitbreaker" => Box::new(adapters::circuitbreaker::CbAd::new(variant)),
         _ => return None,
     })
